@@ -194,12 +194,19 @@ Qed.
 End Unquote.
 
 (* ---- quoting with a map ----------------------------------------------------------------------- *)
+(* e is a %XX triple (hex digits of either case) that decodes to b *)
+Definition is_escape_of (b : N) (e : text) : bool :=
+  match e with
+  | [p; x; y] => (p =? 37) && opt_eqb (hexval2 x y) (Some b)
+  | _ => false
+  end.
+
 Definition entry_ok (ok : N -> bool) (m : list text) (b : N) : bool :=
   let e := map_get m b in
-  text_eqb e (pct_encode b) || (text_eqb e [b] && ok b && negb (b =? 37)).
+  is_escape_of b e || (text_eqb e [b] && ok b && negb (b =? 37)).
 
-(* every one of the 256 entries is "%XX" or the byte itself, the latter only
-   for bytes that [ok] admits (and never for '%') *)
+(* every one of the 256 entries is an escape "%XX" of the byte (upper- or lower-case hex) or the
+   byte itself, the latter only for bytes that [ok] admits (and never for '%') *)
 Definition map_ok (ok : N -> bool) (m : list text) : bool := forallb (entry_ok ok m) (range 256).
 
 Definition byte (b : N) : bool := b <? 256.
@@ -234,11 +241,14 @@ Variable m : list text.
 Hypothesis MOK : map_ok ok m = true.
 
 Lemma entry_cases b : b < 256 ->
-  map_get m b = pct_encode b \/ (map_get m b = [b] /\ ok b = true /\ (b =? 37) = false).
+  (exists x y, map_get m b = [37; x; y] /\ hexval2 x y = Some b) \/
+  (map_get m b = [b] /\ ok b = true /\ (b =? 37) = false).
 Proof.
   intro H. pose proof (forallb_range 256 _ MOK b H) as E. unfold entry_ok in E.
   apply orb_true_iff in E as [E|E].
-  - left. apply text_eqb_eq. exact E.
+  - left. unfold is_escape_of in E. destruct (map_get m b) as [|p [|x [|y [|z r]]]]; try discriminate.
+    apply andb_true_iff in E as [E1 E2]. apply N.eqb_eq in E1. subst p.
+    apply opt_eqb_eq in E2. exists x, y. split; [reflexivity|exact E2].
   - right. apply andb_true_iff in E as [E E3]. apply andb_true_iff in E as [E1 E2].
     apply text_eqb_eq in E1. apply negb_true_iff in E3. auto.
 Qed.
@@ -247,8 +257,8 @@ Lemma quote_decode bs : forallb byte bs = true -> pct_decode (flat_map (map_get 
 Proof.
   induction bs as [|b r IH]; intro H; [reflexivity|].
   cbn [forallb] in H. apply andb_true_iff in H as [Hb Hr]. unfold byte in Hb. apply N.ltb_lt in Hb.
-  cbn [flat_map]. destruct (entry_cases b Hb) as [E|[E [_ E3]]]; rewrite E.
-  - rewrite pct_decode_pct_encode by exact Hb. f_equal. apply IH. exact Hr.
+  cbn [flat_map]. destruct (entry_cases b Hb) as [[x [y [E Ex]]]|[E [_ E3]]]; rewrite E.
+  - cbn [app]. rewrite pct_decode_pct, Ex. f_equal. apply IH. exact Hr.
   - cbn [app]. rewrite pct_decode_plain by exact E3. f_equal. apply IH. exact Hr.
 Qed.
 
@@ -256,25 +266,25 @@ Lemma quote_legal bs : forallb byte bs = true -> legal ok (flat_map (map_get m) 
 Proof.
   induction bs as [|b r IH]; intro H; [reflexivity|].
   cbn [forallb] in H. apply andb_true_iff in H as [Hb Hr]. unfold byte in Hb. apply N.ltb_lt in Hb.
-  cbn [flat_map]. destruct (entry_cases b Hb) as [E|[E [E2 E3]]]; rewrite E.
-  - rewrite legal_pct_encode by exact Hb. apply IH. exact Hr.
+  cbn [flat_map]. destruct (entry_cases b Hb) as [[x [y [E Ex]]]|[E [E2 E3]]]; rewrite E.
+  - cbn [app legal]. rewrite N.eqb_refl, Ex. apply IH. exact Hr.
   - cbn [app]. rewrite legal_plain by exact E3. rewrite E2. apply IH. exact Hr.
 Qed.
 
 (* every character of the quoted text satisfies P, when P holds of '%', of the
-   sixteen upper-case hex digits and of every byte [ok] admits *)
+   hex digits and of every byte [ok] admits *)
 Lemma quote_forall (P : N -> bool) bs :
-  P 37 = true -> (forall d, d < 16 -> P (hexdigit_upper d) = true) ->
+  P 37 = true -> forallb P hexdigits = true ->
   (forall b, ok b = true -> P b = true) ->
   forallb byte bs = true -> forallb P (flat_map (map_get m) bs) = true.
 Proof.
   intros P37 Phex Pok. induction bs as [|b r IH]; intro H; [reflexivity|].
   cbn [forallb] in H. apply andb_true_iff in H as [Hb Hr]. unfold byte in Hb. apply N.ltb_lt in Hb.
   cbn [flat_map]. rewrite forallb_app. rewrite (IH Hr), andb_true_r.
-  destruct (entry_cases b Hb) as [E|[E [E2 _]]]; rewrite E.
-  - unfold pct_encode. cbn [forallb]. rewrite P37.
-    rewrite (Phex (b / 16)) by (apply N.div_lt_upper_bound; lia).
-    rewrite (Phex (b mod 16)) by (apply N.mod_lt; lia). reflexivity.
+  destruct (entry_cases b Hb) as [[x [y [E Ex]]]|[E [E2 _]]]; rewrite E.
+  - cbn [forallb]. rewrite P37. rewrite forallb_forall in Phex.
+    unfold hexval2 in Ex. destruct (hexval1 x) eqn:Hx; [|discriminate]. destruct (hexval1 y) eqn:Hy; [|discriminate].
+    rewrite (Phex x (hexval1_digits _ _ Hx)), (Phex y (hexval1_digits _ _ Hy)). reflexivity.
   - cbn [forallb]. rewrite (Pok b E2). reflexivity.
 Qed.
 
@@ -282,6 +292,6 @@ Lemma quote_nil bs : forallb byte bs = true -> flat_map (map_get m) bs = [] -> b
 Proof.
   destruct bs as [|b r]; intros H E; [reflexivity|exfalso].
   cbn [forallb] in H. apply andb_true_iff in H as [Hb _]. unfold byte in Hb. apply N.ltb_lt in Hb.
-  cbn [flat_map] in E. destruct (entry_cases b Hb) as [E1|[E1 _]]; rewrite E1 in E; discriminate.
+  cbn [flat_map] in E. destruct (entry_cases b Hb) as [[x [y [E1 _]]]|[E1 _]]; rewrite E1 in E; discriminate.
 Qed.
 End Quote.
